@@ -108,7 +108,11 @@ Rename(tb, i, acc, flags) ==
                 ELSE f
        IN Rename(tb, i + 1, Append(acc, g), flags)
 
+\* a mapped name / file (Wild: the frame of an expression a function waits for, which pyscript names after the waiting
+\* function or "wait_until"; the context-named leading frame of a chained part) is not known to equal anything: such
+\* frames belong to another evaluation and never merge - two Wild frames are NOT "equally named"
 Mergeable(a, b, flags) ==
+  /\ a.name # Wild /\ b.name # Wild /\ a.file # Wild /\ b.file # Wild
   /\ a.file = b.file /\ a.name = b.name /\ b.kind # "module"
   /\ \/ "same-name-merge" \in flags
      \/ "wrapper-renamed" \in flags /\ a.kind = "wrapper"
